@@ -313,25 +313,46 @@ let lcg = ref 12345
 let rnd n = lcg := (!lcg * 1103515245 + 12345) land 0x3fffffff; (!lcg lsr 8) mod n
 
 let c03_search (c : case) (mode : string) km pm (wit : bytes list) (ssig : bytes) (tapok : bool) =
-  (* only witness-script outputs: the script input items are wit minus the script (wsh, shwsh) *)
-  if (c.kind = "wsh" || c.kind = "shwsh") && c.sane && mode = "nonmall" then begin
-    match List.rev wit with
-    | sc :: items_rev ->
-      let items = List.rev items_rev in
+  (* the script's input items (push order) and how to rebuild (scriptSig, witness) around other items *)
+  let split : (bytes list * (bytes list -> bytes * bytes list)) option =
+    (match c.kind with
+     | "wsh" | "shwsh" ->
+       (match List.rev wit with sc :: r -> Some (List.rev r, (fun cand -> (ssig, cand @ [sc]))) | [] -> None)
+     | "sh" ->
+       (match parse_script ssig with
+        | Some ss -> (match pushonly_stack ss [] with
+            | Some (rb :: st) -> Some (List.rev st, (fun cand -> (ser_pushes cand @ serialize [IPush rb], [])))
+            | _ -> None)
+        | None -> None)
+     | "bare" ->
+       (match parse_script ssig with
+        | Some ss -> (match pushonly_stack ss [] with
+            | Some st -> Some (List.rev st, (fun cand -> (ser_pushes cand, [])))
+            | None -> None)
+        | None -> None)
+     | "tr" ->
+       (match List.rev wit with
+        | cb :: sc :: r -> Some (List.rev r, (fun cand -> ([], cand @ [sc; cb])))
+        | _ -> None)
+     | _ -> None) in
+  if c.sane && mode = "nonmall" then begin
+    match split with
+    | Some (items, rebuild) ->
       let n = List.length items in
       if n <= 6 then begin
         incr c03_checked;
         let e = mk_env c in
         let zeros = List.init 32 (fun _ -> byte_tab.(0)) in
         let pre_all = List.filter_map (fun (j, p) -> if j < List.length !pres - 1 then Some p.pre else None) !pres in
-        let keys_all = List.map (fun (_, k) -> k.full) !keys in
+        let keys_all = List.concat_map (fun (_, k) -> [k.full; k.xonly]) !keys in
         let junk = [byte_tab.(0xde); byte_tab.(0xad)] in
         let alpha = List.sort_uniq compare (items @ [[]; [byte_tab.(1)]; zeros; junk] @ pre_all @ keys_all) in
         let alpha = Array.of_list alpha in
         let a = Array.length alpha in
         let try_cand (cand : bytes list) =
           incr c03_candidates;
-          if cand <> items && verify_spend e (fun _ _ -> tapok) c.spk ssig (cand @ [sc]) then begin
+          let (cs, cw) = rebuild cand in
+          if cand <> items && verify_spend e (fun _ _ -> tapok) c.spk cs cw then begin
             incr c03_bad;
             Printf.printf "BAD C03 case=%s kind=%s keymask=%s premask=%s lock=%d seq=%d desc=%s original=%s alternative=%s\n"
               c.id c.kind km pm c.lock c.seq c.desc (hexs items) (hexs cand);
@@ -365,7 +386,7 @@ let c03_search (c : case) (mode : string) km pm (wit : bytes list) (ssig : bytes
           end
         done
       end
-    | [] -> ()
+    | None -> ()
   end
 
 
